@@ -1028,6 +1028,44 @@ class Emitter:
                 if h1 == h2: raise Unsupported('two latches for one header')
         return loops
 
+    def loop_written_slots(s, f, h, l):
+        """names (m_<x>) of the entry-block allocas that an instruction in blocks h..l may write: direct stores, stores through
+        getelementptr / bitcast chains, and any call that receives a pointer derived from the slot"""
+        defs = {}
+        allocas = set()
+        for b in f.blocks:
+            for ins in b.ins:
+                if ins.dst is not None: defs[ins.dst] = ins
+                if ins.op == 'alloca': allocas.add(ins.dst)
+
+        def root(v, depth=0):
+            while isinstance(v, CExpr): v = v.args[0][1]
+            if not isinstance(v, Local) or depth > 20: return None
+            if v.n in allocas: return v.n
+            d = defs.get(v.n)
+            if d is None: return None
+            if d.op == 'getelementptr': return root(d.a[2], depth + 1)
+            if d.op in ('bitcast', 'addrspacecast'): return root(d.a[1] if len(d.a) > 1 else d.a[0], depth + 1)
+            return None
+        out = []
+        for b in f.blocks[h:l + 1]:
+            for ins in b.ins:
+                cands = []
+                if ins.op == 'store':
+                    cands.append(ins.a[3])
+                elif ins.op in ('call', 'invoke'):
+                    def walk(x):
+                        if isinstance(x, Local): cands.append(x)
+                        elif isinstance(x, (list, tuple)):
+                            for y in x: walk(y)
+                    walk(ins.a)
+                for c in cands:
+                    r = root(c)
+                    if r is not None:
+                        nm = 'm_' + san(r)
+                        if nm not in out: out.append(nm)
+        return out
+
     def translate(s, fn, contract=None):
         """returns (prototype, body text, callee set)"""
         mod = s.mod
@@ -1126,7 +1164,12 @@ class Emitter:
                     inv = ' && '.join('(%s)' % i for i in lc.get('invariant', ['1']))
                     code.append('__CPROVER_assert(%s, "LOOP:invariant-base %s loop %d");' % (inv, short, n))
                     if lc.get('assigns') is None: raise Unsupported('vc mode needs an explicit loop assigns clause')
-                    for nm in [x.strip() for x in lc['assigns'].split(',') if x.strip()]:
+                    hv_names = [x.strip() for x in lc['assigns'].split(',') if x.strip()]
+                    # every stack slot written inside the loop is havocked, whether or not the clause lists it (a refactoring that introduces a
+                    # local must neither break the obligation nor make it unsound); slots declared later are emitted as `m_<name>`
+                    for extra in s.loop_written_slots(f, bi, l):
+                        if extra not in hv_names and not any(h.split('.')[0].split('[')[0] == extra for h in hv_names): hv_names.append(extra)
+                    for nm in hv_names:
                         if nm not in decls: raise Unsupported('loop assigns target %s is not a local of %s' % (nm, fn))
                         s.ncount += 1
                         code.append('{ %s ll2c_hv%d; %s = ll2c_hv%d; }' % (decls[nm], s.ncount, nm, s.ncount))
@@ -1234,11 +1277,14 @@ class Emitter:
                     elif op in ('sdiv', 'srem'):
                         A('%s != 0' % Y, 'UB:div-by-zero', ins.dbg)
                         A('!((%s)%s == (%s)((%s)1 << %d) && (%s)%s == -1)' % (SXw, X, SXw, UXw, w - 1, SXw, Y), 'UB:sdiv-overflow', ins.dbg)
-                        code.append('%s = (%s)((%s)%s %s (%s)%s);' % (d, UXw, SXw, X, cop, SXw, Y))
+                        if w in (32, 64) and not isinstance(y, CInt):
+                            code.append('%s = (%s)LL2C_%s%d((%s)%s, (%s)%s);' % (d, UXw, op.upper(), w, SXw, X, SXw, Y))
+                        else:
+                            code.append('%s = (%s)((%s)%s %s (%s)%s);' % (d, UXw, SXw, X, cop, SXw, Y))
                     elif op in ('udiv', 'urem'):
                         A('%s != 0' % Y, 'UB:div-by-zero', ins.dbg)
-                        if w == 64 and not isinstance(y, CInt):
-                            code.append('%s = %s(%s, %s);' % (d, 'LL2C_UDIV64' if op == 'udiv' else 'LL2C_UREM64', X, Y))
+                        if w in (32, 64) and not isinstance(y, CInt):
+                            code.append('%s = (%s)LL2C_%s%d((%s)%s, (%s)%s);' % (d, UXw, op.upper(), w, UXw, X, UXw, Y))
                         else:
                             code.append('%s = (%s)((%s)%s %s (%s)%s);' % (d, UXw, UXw, X, cop, UXw, Y))
                     elif op in ('shl', 'lshr', 'ashr'):
@@ -1262,7 +1308,10 @@ class Emitter:
                     if op == 'frem':
                         raise Unsupported('frem')
                     cop = {'fadd': '+', 'fsub': '-', 'fmul': '*', 'fdiv': '/'}[op]
-                    code.append('%s = (%s)(%s %s %s);' % (d, t.k, val(t, x), cop, val(t, y)))
+                    if t.k in ('float', 'double'):
+                        code.append('%s = LL2C_%s%d(%s, %s);' % (d, op.upper(), 32 if t.k == 'float' else 64, val(t, x), val(t, y)))
+                    else:
+                        code.append('%s = (%s)(%s %s %s);' % (d, t.k, val(t, x), cop, val(t, y)))
                 elif op == 'fneg':
                     t, x = a
                     d = decl(dst, t)
@@ -1550,6 +1599,24 @@ PRELUDE = r'''/* generated by /verif/vf/ll2c.py from clang-14 LLVM IR -- do not 
 #define LL2C_UMULOVF64(x, y) __CPROVER_overflow_mult((uint64_t)(x), (uint64_t)(y))
 #define LL2C_UDIV64(x, y) ((uint64_t)((uint64_t)(x) / (uint64_t)(y)))
 #define LL2C_UREM64(x, y) ((uint64_t)((uint64_t)(x) % (uint64_t)(y)))
+#endif
+#ifndef LL2C_SDIV64
+#define LL2C_SDIV64(x, y) ((int64_t)((int64_t)(x) / (int64_t)(y)))
+#define LL2C_SREM64(x, y) ((int64_t)((int64_t)(x) % (int64_t)(y)))
+#define LL2C_UDIV32(x, y) ((uint32_t)((uint32_t)(x) / (uint32_t)(y)))
+#define LL2C_UREM32(x, y) ((uint32_t)((uint32_t)(x) % (uint32_t)(y)))
+#define LL2C_SDIV32(x, y) ((int32_t)((int32_t)(x) / (int32_t)(y)))
+#define LL2C_SREM32(x, y) ((int32_t)((int32_t)(x) % (int32_t)(y)))
+#endif
+#ifndef LL2C_FMUL64
+#define LL2C_FADD32(x, y) ((float)((float)(x) + (float)(y)))
+#define LL2C_FSUB32(x, y) ((float)((float)(x) - (float)(y)))
+#define LL2C_FMUL32(x, y) ((float)((float)(x) * (float)(y)))
+#define LL2C_FDIV32(x, y) ((float)((float)(x) / (float)(y)))
+#define LL2C_FADD64(x, y) ((double)((double)(x) + (double)(y)))
+#define LL2C_FSUB64(x, y) ((double)((double)(x) - (double)(y)))
+#define LL2C_FMUL64(x, y) ((double)((double)(x) * (double)(y)))
+#define LL2C_FDIV64(x, y) ((double)((double)(x) / (double)(y)))
 #endif
 static inline float ll2c_bits_f32(uint32_t b) { union { uint32_t i; float f; } u; u.i = b; return u.f; }
 static inline double ll2c_bits_f64(uint64_t b) { union { uint64_t i; double f; } u; u.i = b; return u.f; }
